@@ -25,8 +25,9 @@ Inductive encalg := A256GCM | XC20P | A128CBC | A192CBC | A256CBC384 | A256CBC51
    raw key bytes (legacy packers called directly) *)
 Inductive kstyle := DidKey | DidDoc | DidDocMulti | RawKey.
 Record cfg := mkcfg { packer_of : packer; kt_of : ktype; enc_of : encalg; style_of : kstyle }.
-(* AsIs = the DID-document kid resolver as found (returns the result of the LAST keyAgreement entry);
-   Fixed = after the fix: commit (first matching entry). *)
+(* AsIs = the code as found: the DID-document kid resolver returns the result of the LAST keyAgreement entry
+   (fix: 1a07210) and JWEDecrypt unwraps ECDH-ES keys although a sender key id is present (fix: 234874c);
+   Fixed = after both fix: commits. *)
 Inductive variant := AsIs | Fixed.
 
 Definition is_auth (p : packer) := match p with JweAuth | LegAuth => true | _ => false end.
@@ -290,6 +291,9 @@ Record recwk := mkrecwk { wk_kid : option kref; wk_alg : option kwalg; wk_epk : 
 
 Definition is_pub (t : term) := match t with Pub _ => true | _ => false end.
 
+(* an apu/apv header value that is not base64url (Junk) makes createRecWK fail for the whole envelope *)
+Definition bad_b64 (o : option term) : bool := match o with Some (Junk _) => true | _ => false end.
+
 (* buildRecipientsWrappedKey for one recipient *)
 Definition build_recwk (single : bool) (prot : phdr) (rc : rcp) : res recwk :=
   let is1pu := match p_alg prot with Some a => is_1pu a | None => false end in
@@ -297,7 +301,7 @@ Definition build_recwk (single : bool) (prot : phdr) (rc : rcp) : res recwk :=
     match p_epk prot with
     | None => Err EInvalid
     | Some epk =>
-        if negb (is_pub epk) then Err EInvalid else
+        if negb (is_pub epk) || bad_b64 (p_apu prot) || bad_b64 (p_apv prot) then Err EInvalid else
         if is1pu && negb single then
           match r_hdr rc with
           | None => Panic 4
@@ -310,7 +314,7 @@ Definition build_recwk (single : bool) (prot : phdr) (rc : rcp) : res recwk :=
     | None => Panic 5
     | Some h => match rh_epk h with
                 | None => Err EInvalid
-                | Some epk => if negb (is_pub epk) then Err EInvalid
+                | Some epk => if negb (is_pub epk) || bad_b64 (rh_apu h) || bad_b64 (rh_apv h) then Err EInvalid
                               else Ok (mkrecwk (rh_kid h) (rh_alg h) epk (rh_apu h) (rh_apv h) (r_ek rc))
                 end
     end.
@@ -356,6 +360,14 @@ Fixpoint unwrap_cek (v : variant) (party : list N) (sender : option N) (tag : te
       end
   end.
 
+(* fix: 234874c — with a sender key id every recipient's key wrapping alg must be ECDH-1PU *)
+Definition alg_1pu (w : recwk) : bool := match wk_alg w with Some a => is_1pu a | None => false end.
+Definition sender_needs_1pu (v : variant) (sender : option N) (ws : list recwk) : bool :=
+  match v, sender with
+  | Fixed, Some _ => negb (forallb alg_1pu ws)
+  | _, _ => false
+  end.
+
 Definition decrypt_jwe (v : variant) (party : list N) (prot : phdr) (j : jwe) : res term :=
   match p_enc prot with
   | None => Err EInvalid
@@ -367,6 +379,7 @@ Definition decrypt_jwe (v : variant) (party : list N) (prot : phdr) (j : jwe) : 
         end in
       bind k_sender (fun sender =>
       bind (build_all (single_rec (j_recs j)) prot (j_recs j)) (fun ws =>
+      if sender_needs_1pu v sender ws then Err EInvalid else
       bind (unwrap_cek v party sender (j_tag j) ws) (fun cek =>
       match c_dec cek (c_aad (t_phdr prot) (j_aad j)) (j_iv j) (j_ct j) (j_tag j) with
       | Some m => Ok m
